@@ -18,12 +18,12 @@ from lib_text import Ref
 PROPERTY = "C05"
 
 # CODE VARIANT FLAGS  (1 = rich 9.10.0 as released, 0 = repaired by pending_fixes/C05-*.diff; see Model/Text.lean `Variant`)
-CTOR_LEN = 1  # Text.__init__: _length = len(text) before control codes are stripped (pre-finding F1)
-CROP_ENDS = 1  # Text.right_crop(0) erases the text; right_crop(n > len) makes _length negative
-STYLIZE_NEG = 1  # Text.stylize(start < -len) stores a negative span start; render repeats characters / raises
-GETITEM = 1  # Text.__getitem__(int) drops the base style, and all spans for a negative index
-DIVIDE_ORDER = 1  # Text.divide re-orders spans through its value-keyed `order` dict (a split remainder equal to a later span)
-ALIGN_NEG = 1  # Text.align pads by a negative excess (text wider than the width): pad_left shifts the spans off their characters
+CTOR_LEN = 0  # Text.__init__: _length = len(text) before control codes are stripped (pre-finding F1)
+CROP_ENDS = 0  # Text.right_crop(0) erases the text; right_crop(n > len) makes _length negative
+STYLIZE_NEG = 0  # Text.stylize(start < -len) stores a negative span start; render repeats characters / raises
+GETITEM = 0  # Text.__getitem__(int) drops the base style, and all spans for a negative index
+DIVIDE_ORDER = 0  # Text.divide re-orders spans through its value-keyed `order` dict (a split remainder equal to a later span)
+ALIGN_NEG = 0  # Text.align pads by a negative excess (text wider than the width): pad_left shifts the spans off their characters
 FLAGS = "".join(str(x) for x in (CTOR_LEN, CROP_ENDS, STYLIZE_NEG, GETITEM, DIVIDE_ORDER, ALIGN_NEG))
 import os as _os
 
